@@ -16,7 +16,7 @@ RULE = ('designs of strata S1, S1x, S2, S3, S4, S5, S6 (vt/gen.py; quick = fixed
         'Non-trivial = both sides return >= 2 sequences.')
 ASSUMPTIONS = ['an exhausted RandomGen returns the same set whatever the PRNG seed (checked under the VERIF_SEED given)']
 BUDGET_S = {'quick': 60, 'thorough': 300}
-STRATA = ['S1', 'S1L', 'S1n', 'S1p', 'S1x', 'S1xa', 'S2', 'S2s', 'S3', 'S4', 'S5', 'S6']
+STRATA = ['S1', 'S1L', 'S1n', 'S1p', 'S1x', 'S1xa', 'S3s', 'S2', 'S2s', 'S3', 'S4', 'S5', 'S6']
 QUICK_CAPS = dsw.QUICK_CAPS_BIG
 CAP = {'quick': 250, 'thorough': 1500}
 
